@@ -3,7 +3,7 @@ from checks import _engine, C10_proc
 
 MANIFEST = dict(
     technique="Coq proof over the executable engine model (non-leader refusal, state unchanged; follower re-arm) and over the forwarding relay model (exactly-once, in-order, unshifted relay of the leader's replies) + differential correspondence with role changes + process-level leader/follower comparison through a logging proxy",
-    text="Theorems in coq/Properties/C10*.v, for every state with status <> LEADER and every client request without the from-AOF flag: the only event is a STATE_ERROR reply to the requester (TIMEOUT for the concurrent-check probe) and the engine state is unchanged extensionally; a persisted hold on a non-leader is re-armed (+30 s) instead of being ended while within 300 s of its deadline. Tie = differential correspondence on seeded histories with role changes between requests and from-AOF (replicated) requests applied while follower, comparing replies and full snapshots; monitor = the same statement on implementation traces. The forwarding path (transparency.go) is modelled as a relay (coq/Forward/Relay.v): every forwarded text command is answered exactly once, in order, with its own result or its own roll-back, the link reader never blocks, a dropped link releases the client; binary forwarding is compared byte-for-byte with the leader's frames at process level (sub-check C10_proc: real leader + follower behind a frame-logging proxy, link cuts, promotion / demotion between two requests).",
+    text="Theorems in coq/Properties/C10*.v, for every state with status <> LEADER and every client request without the from-AOF flag: the only event is a refusal reply to the requester (STATE_ERROR; TIMEOUT for the concurrent-check probe; an UNLOCK on a key without manager is answered UNLOCK_ERROR and counted in UnlockErrorCount), no hold, queue, value or timer changes (an unreferenced empty key manager may be reclaimed); a persisted hold on a non-leader is re-armed (+30 s) instead of being ended while within 300 s of its deadline. Tie = differential correspondence on seeded histories with role changes between requests and from-AOF (replicated) requests applied while follower, comparing replies and full snapshots; monitor = the same statement on implementation traces. The forwarding path (transparency.go) is modelled as a relay (coq/Forward/Relay.v): every forwarded text command is answered exactly once, in order, with its own result or its own roll-back, the link reader never blocks, a dropped link releases the client; binary forwarding is compared byte-for-byte with the leader's frames at process level (sub-check C10_proc: real leader + follower behind a frame-logging proxy, link cuts, promotion / demotion between two requests).",
     note="Trusted: Coq kernel; model validated by the correspondence check; role is switched by the harness under the shard mutex as updateState does. Forwarding and relay (TransparencyBinary/TextServerProtocol) are decided by the sub-check checks/C10_proc.py: relay model coq/Forward/Relay.v (theorems coq/Properties/C10_proc.v) tied observationally to real leader + follower processes behind a frame-logging proxy; not covered: vote / config states at process level, leader->follower switch with forwarding on an already open connection (needs the arbiter). Known findings in known_findings/C10_proc.json.",
 )
 PROFILES = [("role", 0.75), ("schedrole", 0.25)]
